@@ -412,9 +412,9 @@ def run(ctx):
   # systematic sweep of the timing grid, then random fill
   grid = [(impl, np, lat, st) for impl in ('CL', 'RTL') for np in (1, 2, 3)
           for lat in ((1, 2, 3, 4, 5) if impl == 'CL' else (0, 1, 2, 4)) for st in (0, 0.3, 0.7)]
-  rounds = 1 if quick else 6
+  rounds = 1 if quick else 10
   plan = grid * rounds
-  extra = 40 if quick else 600
+  extra = 120 if quick else 2500
   for _ in range(extra):
     impl = rng.choice(['CL', 'RTL'])
     plan.append((impl, rng.choice([1, 2, 2, 3, 3] if quick else [1, 2, 2, 3, 3, 4]), None, None))
@@ -433,7 +433,7 @@ def run(ctx):
       tm = gen_timing(rng, impl, nports, lat if k == 0 else None, st if k == 0 else None)
       hists.append(simulate(I, impl, W, reqs, init, tm, (lo, hi)))
 
-  ctx.extra['sim_s'] = round(time.time() - ctx.t0, 1)
+  ctx.extra['build_and_sim_s'] = round(time.time() - ctx.t0, 1)
   # ---- Coq decides
   live = [h for h in hists if not h['exception']]
   cases = [case_term(h) for h in live]
@@ -446,7 +446,7 @@ def run(ctx):
                 'responses': h['out'], 'cycles': h.get('cycles')})
   bad = ctx.coq_bad_indices('hist', IMPORTS, DEFS, CASE_T, cases, OK_BODY, shard=60) if cases else []
   badset = set(bad)
-  ctx.extra['coq_judge_s'] = round(time.time() - ctx.t0 - ctx.extra['sim_s'], 1)
+  ctx.extra['coq_judge_s'] = round(time.time() - ctx.t0 - ctx.extra['build_and_sim_s'], 1)
   # the python replica must agree with Coq on every case (guards the replica used for shrinking / diagnosis)
   for i, h in enumerate(live):
     if py_check(h)[0] != (i not in badset):
